@@ -142,7 +142,7 @@ class ClassInfo:
 
 class Module:
     __slots__ = ('name', 'relpath', 'source', 'tree', 'bindings', 'is_package',
-                 'toplevel_assign_order', 'program')
+                 'assigns', 'program')
 
     def __init__(self, name, relpath, source):
         self.name = name
@@ -153,6 +153,7 @@ class Module:
         except SyntaxError as err:
             raise AnalysisError('cannot parse %s: %s' % (relpath, err))
         self.bindings = {}  # name -> binding tuple
+        self.assigns = {}  # name -> [(value expr or None, stmt)] module level
         self.is_package = relpath.endswith('__init__.py')
         self.program = None
 
@@ -176,7 +177,7 @@ class Program:
 
     Bindings are tuples:
       ('class', qn) ('func', qn) ('module', name) ('import', module, attr)
-      ('extmodule', name) ('ext', dotted) ('assign', expr, module) ('unknown',)
+      ('extmodule', name) ('ext', dotted) ('assign', name, module) ('unknown',)
     """
 
     def __init__(self, sources: Dict[str, str]):
@@ -289,7 +290,8 @@ class Program:
                 if target.id == '__slots__':
                     cls.slots = value
             elif toplevel and cls is None and fn is None:
-                module.bindings[target.id] = ('assign', value, module.name, stmt)
+                module.assigns.setdefault(target.id, []).append((value, stmt))
+                module.bindings[target.id] = ('assign', target.id, module.name)
         elif isinstance(target, (ast.Tuple, ast.List)):
             for elt in target.elts:
                 self._collect_assign(module, cls, fn, toplevel, elt, None, stmt)
